@@ -188,8 +188,13 @@ func C01(r *Run) {
 	sessions := make([]Sess, n)
 	okChains, errChains := 0, 0
 	distinct := map[string]bool{}
+	gb := gen.New(r.Seed*7919 + 100001).Big() // every 12th chain in the large regime (wide, deep, non-ASCII keys)
 	for i := range sessions {
-		sessions[i] = chainSession(g, i)
+		if i%12 == 11 {
+			sessions[i] = chainSession(gb, i)
+		} else {
+			sessions[i] = chainSession(g, i)
+		}
 		last := string(sessions[i].Lines[len(sessions[i].Lines)-1])
 		if len(last) > 0 && last[0] == '{' && contains(last, `"ev":"Documents"`) {
 			okChains++
